@@ -6,8 +6,10 @@ Scratch files live under /verif/.cache/run-<pid>/c18 and are removed at the end 
 """
 import copy
 import datetime as _dt
+import json
 import os
 import shutil
+import zlib
 from pathlib import Path
 
 import cv2
@@ -70,8 +72,14 @@ def gen_npz(tier):
                 cand += ["OpticalImage", "OpticalImage"]
         spec["cls"] = draw(st.sampled_from(cand))
         spec["cspace"] = draw(st.sampled_from(["RGB", "BGR", "HSV"]))
+        # "saving ANY image": not only freshly constructed ones - half of the cases save an image
+        # that public operations have brought into another state first (see _OPS)
+        ops = []
+        for _ in range(draw(st.sampled_from([0, 0, 0, 1, 1, 2, 3]))):
+            ops.append(draw(_op(spec)))
         return {
             "img": spec,
+            "ops": ops,
             "refdate": draw(st.sampled_from([None, None, -90, 45])),  # seconds relative to BASE_DATE
             "special": draw(st.sampled_from([False, False, True])),
             "path": draw(st.sampled_from(["Path", "str"])),
@@ -80,6 +88,115 @@ def gen_npz(tier):
         }
 
     return strat()
+
+
+# operations that produce images which do not come straight from the constructor: other dtype than
+# the original one, array that is a strided view, metadata changed after construction
+_OPS_ANY = ["astype", "astype", "astype", "set_time", "rename", "rename_dict", "reset_origin", "copy",
+            "subregion", "layout", "layout", "append"]
+_OPS_SERIES = ["time_slice", "time_slice", "time_interval", "time_interval"]
+_OPS_DATED = ["new_reference_date", "shift_reference", "reset_reference"]
+
+
+@st.composite
+def _op(draw, spec):
+    cand = list(_OPS_ANY)
+    if spec["series"]:
+        cand += _OPS_SERIES
+    if spec["time"] in ("date", "both"):
+        cand += _OPS_DATED
+    return {"op": draw(st.sampled_from(cand)), "a": draw(st.integers(0, 7)), "b": draw(st.integers(0, 7)),
+            "to": draw(st.sampled_from(C.ALL5))}
+
+
+def _apply_op(img, op, case, k):
+    """One public operation; returns (image, label) - label None if the operation does not apply to
+    the current state of the image (then it is skipped)."""
+    name, a, b = op["op"], op["a"], op["b"]
+    dated = not img._is_none(img.date)
+    if name == "astype":
+        return img.astype(C.NPT[op["to"]]), "op-astype"
+    if name == "copy":
+        return img.copy(), "op-copy"
+    if name == "rename":
+        img.update_metadata(name=f"renamed {a}")
+        return img, "op-update_metadata"
+    if name == "rename_dict":
+        img.update_metadata({"name": None if a % 2 else "x"})
+        return img, "op-update_metadata"
+    if name == "reset_origin":
+        if a % 2:
+            return img.reset_origin(return_image=True), "op-reset_origin"
+        img.reset_origin()
+        return img, "op-reset_origin"
+    if name == "set_time":
+        n = img.time_num
+        img.set_time([0.5 * a + 3.0 * i for i in range(n)] if img.series else 0.5 * a)
+        return img, "op-set_time"
+    if name == "layout":
+        # the array of an image may be any ndarray (corrections assign views / transposed copies)
+        img.img = np.asfortranarray(img.img) if a % 2 else np.repeat(img.img, 2, axis=0)[::2]
+        return img, "op-layout"
+    if name == "subregion":
+        n = img.num_voxels
+        roi = []
+        for d in range(img.space_dim):
+            lo = (a + d) % n[d]
+            roi.append(slice(lo, lo + 1 + (b + d) % (n[d] - lo)))
+        return img.subregion(tuple(roi)), "op-subregion"
+    if name == "time_slice":
+        if not img.series:
+            return img, None
+        return img.time_slice(a % img.time_num), "op-time_slice"
+    if name == "time_interval":
+        if not img.series:
+            return img, None
+        lo = a % img.time_num
+        return img.time_interval(slice(lo, lo + 1 + b % (img.time_num - lo))), "op-time_interval"
+    if name == "new_reference_date":
+        if not dated:
+            return img, None
+        img.update_reference_time(gens.BASE_DATE - _dt.timedelta(seconds=7 * a + 1))
+        return img, "op-reference"
+    if name == "shift_reference":
+        if not dated or img.reference_date is None:
+            return img, None
+        img.update_reference_time(1.5 * a - 4.0)
+        return img, "op-reference"
+    if name == "reset_reference":
+        if not dated:
+            return img, None
+        img.reset_reference_time()
+        return img, "op-reference"
+    if name == "append":
+        # a later single image of the same geometry (documented use: single -> series, series grows)
+        spec = case["img"]
+        if img.img.shape[: img.space_dim] != tuple(spec["shape"]) or img.time_num > 4:
+            return img, None
+        nxt = 60 + 40 * k + a  # minutes after BASE_DATE: later than every date drawn / appended so far
+        s2 = dict(spec, series=False, nt=0, pseed=(spec["pseed"] + 101 * (k + 1)) % 2**16)
+        arr2 = gens.payload_array(gens.full_shape(s2), str(img.img.dtype), s2["pseed"], dyadic=True)
+        kw = dict(space_dim=img.space_dim, dimensions=list(img.dimensions), scalar=img.scalar,
+                  origin=np.asarray(img.origin, dtype=float).tolist())
+        if dated:
+            kw["date"] = gens.BASE_DATE + _dt.timedelta(minutes=nxt)
+        if not img._is_none(img.time):
+            kw["time"] = 100.0 + a
+        img.append(darsia.Image(arr2, **kw), offset=[None, 5.0, 1000.0][b % 3])
+        return img, "op-append"
+    raise AssertionError(name)
+
+
+def _direct_attrs(img):
+    """The attributes of an image read one by one (not through Image.metadata())."""
+    out = {}
+    for k in ("space_dim", "dimensions", "origin", "series", "scalar", "date", "reference_date", "time",
+              "name", "indexing"):
+        v = getattr(img, k)
+        if k in ("dimensions", "origin"):
+            v = np.asarray(v, dtype=float).tolist()
+        out[k] = copy.deepcopy(v)
+    return out
 
 
 def _build_npz_image(case):
@@ -191,6 +308,26 @@ def check_npz(case):
     spec = case["img"]
     t = _npz_tags(case)
     img, arr = _build_npz_image(case)
+    want_attrs = _expected_attrs(case)
+    d = _attr_diff(img, want_attrs)
+    if d:  # the reference model must describe the image that was built
+        from vf.runner import HarnessError
+
+        raise HarnessError(f"C18 attribute model disagrees with the constructed image: {d}")
+    op_labels = []
+    for k, op in enumerate(case.get("ops", [])):
+        img, lab = _apply_op(img, op, case, k)
+        if lab is not None:
+            op_labels.append(lab)
+    if op_labels:
+        # the image that is saved is the derived one: its array and its attributes, read directly
+        arr = np.array(img.img, copy=True, order="K")
+        want_attrs = _direct_attrs(img)
+        t = dict(t, derived=True)
+        if str(img.img.dtype) != str(img.original_dtype):
+            op_labels.append("dtype-differs-from-original")
+        if not img.img.flags["C_CONTIGUOUS"]:
+            op_labels.append("array-not-contiguous")
     meta_before = C._norm_meta(img.metadata())
     # entries of the generic metadata only: imread_from_npz builds a plain darsia.Image
     generic = {k: v for k, v in meta_before.items() if k != "color_space"}
@@ -204,12 +341,6 @@ def check_npz(case):
     if not _bytes_equal(img.img, arr) or C._norm_meta(img.metadata()) != meta_before:
         raise Violation("npz-save-mutates", "save() changed the image", t)
     loaded = darsia.imread(p1)
-    want_attrs = _expected_attrs(case)
-    d = _attr_diff(img, want_attrs)
-    if d:  # the reference model must describe the image that was built
-        from vf.runner import HarnessError
-
-        raise HarnessError(f"C18 attribute model disagrees with the constructed image: {d}")
     _compare_loaded(img, arr, generic, cs_before, want_attrs, loaded, "save -> imread", t)
     # second generation
     p2 = _path("second.npz", "Path")
@@ -219,8 +350,8 @@ def check_npz(case):
     with np.load(str(p1), allow_pickle=True) as f1, np.load(str(p2), allow_pickle=True) as f2:
         if not _bytes_equal(f1["array"], f2["array"]):
             raise Violation("npz-resave", "re-saved file holds a different array", t)
-    nontrivial = spec["series"] or spec["dim"] == 3 or spec["time"] != "none"
-    labels = (f"dim{spec['dim']}", "series" if spec["series"] else "single", f"payload-{spec['payload']}",
+    nontrivial = spec["series"] or spec["dim"] == 3 or spec["time"] != "none" or bool(op_labels)
+    labels = tuple(sorted(set(op_labels))) + (("derived",) if op_labels else ("fresh-from-constructor",)) + (f"dim{spec['dim']}", "series" if spec["series"] else "single", f"payload-{spec['payload']}",
               f"dtype-{spec['dtype']}", f"time-{spec['time']}", f"cls-{spec['cls']}",
               "origin-user" if spec["origin"] is not None else "origin-default",
               "refdate" if (case["refdate"] is not None and spec["time"] in ("date", "both")) else "refdate-default")
@@ -246,9 +377,37 @@ def gen_bytes(tier):
             "pattern": draw(st.sampled_from(["random", "random", "channel-ramp"])),
             "kw": kw,
             "t0": draw(st.integers(0, 5)),
+            # who wrote the byte string: cv2 (the decoder's own library) or an independent encoder
+            "enc": draw(st.sampled_from(["cv2", "independent"])),
+            # keyword ``transformations`` of the reader
+            "transf": draw(st.sampled_from(["none", "none", "type-float32", "type-float32+none"])),
         }
 
     return strat()
+
+
+def _encode(case, arr, nch, to_encode):
+    """-> (bytes or None, encoder label).  The independent encoders (Pillow, tifffile) are handed the
+    array in RGB order - what the file formats store -, cv2 the BGR order of its API."""
+    import io
+
+    fmt, depth = case["fmt"], case["depth"]
+    if case.get("enc", "cv2") == "independent" and nch in (0, 3):
+        if (depth == 8 or nch == 0) and (fmt == ".png" or case["pseed"] % 3 == 0):
+            from PIL import Image as PILImage
+
+            buf = io.BytesIO()
+            PILImage.fromarray(arr).save(buf, format="PNG" if fmt == ".png" else "TIFF")
+            return buf.getvalue(), "enc-pillow"
+        if fmt in (".tif", ".tiff"):
+            import tifffile
+
+            buf = io.BytesIO()
+            tifffile.imwrite(buf, arr, photometric="rgb" if nch == 3 else "minisblack",
+                             compression="deflate" if case["pseed"] % 2 else None)
+            return buf.getvalue(), "enc-tifffile"
+    ok, buf = cv2.imencode(fmt, to_encode)
+    return (buf.tobytes() if ok else None), "enc-cv2"
 
 
 def _bytes_kwargs(case):
@@ -282,31 +441,44 @@ def check_bytes(case):
         to_encode = np.ascontiguousarray(arr[..., [2, 1, 0, 3]])
     else:
         to_encode = arr
-    ok, buf = cv2.imencode(case["fmt"], to_encode)
-    if not ok:
+    data, enc = _encode(case, arr, nch, to_encode)
+    if data is None:
         return Outcome(False, None, ("encode-failed",), status="skipped")
-    data = buf.tobytes()
+    t["enc"] = enc
     kw = _bytes_kwargs(case)
     if nch == 3:
         kw["color_space"] = "RGB"
-    labels = (case["fmt"], f"{case['depth']}bit", case["layout"], f"kw-{case['kw']}")
+    transf = case.get("transf", "none")
+    labels = (case["fmt"], f"{case['depth']}bit", case["layout"], f"kw-{case['kw']}", enc, f"transf-{transf}")
+    call_kw = {k: (list(v) if isinstance(v, list) else v) for k, v in kw.items()}
+    if transf != "none":
+        call_kw["transformations"] = [darsia.TypeCorrection(np.float32)] + ([None] if transf.endswith("none") else [])
     try:
-        img = darsia.imread_from_bytes(data, **{k: (list(v) if isinstance(v, list) else v) for k, v in kw.items()})
+        img = darsia.imread_from_bytes(data, **call_kw)
     except NotImplementedError:
-        if nch == 4:  # documented: only grey, single-channel and 3-channel images
+        if nch == 4:  # only grey, single-channel and 3-channel images are implemented
             return Outcome(False, None, labels + ("rejected",), status="rejected")
         raise
     if nch == 4:
-        raise Violation("bytes-rgba-accepted", f"4-channel image decoded to {type(img).__name__}", t)
+        # nothing is promised about 4-channel strings: if a version accepts them, there is no claim
+        return Outcome(False, None, labels + ("rgba-accepted",), status="skipped")
     want_cls = darsia.OpticalImage if nch == 3 else darsia.ScalarImage
     if type(img) is not want_cls:
         raise Violation("bytes-kind", f"{case['layout']} -> {type(img).__name__}", t)
     want = arr if nch != 1 else arr[..., 0]
-    d = C._same_array(img.img, want)
+    got = img.img
+    if transf != "none":
+        # the transformations are applied to the decoded image: float32 image in [0, 1] whose values
+        # are the decoded integers divided by the largest value of their type
+        if got.dtype != np.float32 or got.shape != want.shape:
+            raise Violation("bytes-transformations", f"transformations=[TypeCorrection(float32)]: array of "
+                            f"dtype {got.dtype}, shape {got.shape}", t)
+        got = np.rint(got.astype(np.float64) * (top - 1)).astype(want.dtype)
+    d = C._same_array(got, want)
     if d:
-        if nch == 3 and C._same_array(img.img, want[..., ::-1]) == "":
+        if nch == 3 and C._same_array(got, want[..., ::-1]) == "":
             raise Violation("bytes-channel-order", "channels come back in BGR order", t)
-        raise Violation("bytes-array", f"decoded array differs: {d}", t)
+        raise Violation("bytes-array", f"decoded array differs ({enc}): {d}", t)
     if img.series or img.space_dim != 2 or img.scalar != (nch != 3):
         raise Violation("bytes-metadata", f"series={img.series} space_dim={img.space_dim} scalar={img.scalar}", t)
     for k, v in kw.items():
@@ -326,6 +498,13 @@ def check_bytes(case):
 def gen_write(tier):
     @st.composite
     def strat(draw):
+        case = draw(base())
+        if case["via"] == "folder":
+            case["nfiles"] = max(2, case["nfiles"])
+        return case
+
+    @st.composite
+    def base(draw):
         return {
             "shape": [draw(st.integers(1, 14)), draw(st.integers(1, 14))],
             "dtype": draw(st.sampled_from(["uint8", "uint8", "uint8", "uint16", "uint16", "uint16", "float64"])),
@@ -335,9 +514,12 @@ def gen_write(tier):
             "nfiles": draw(st.sampled_from([1, 1, 1, 2, 3])),
             "pseed": draw(st.integers(0, 2**16)),
             "pattern": draw(st.sampled_from(["random", "channel-ramp"])),
-            "kw": draw(st.sampled_from(["none", "geometry"])),
+            "kw": draw(st.sampled_from(["none", "geometry", "time", "time"])),
             "compression": draw(st.sampled_from([None, 0, 9])),
             "path": draw(st.sampled_from(["Path", "str"])),
+            # how the files are handed to imread: the path(s), or the folder that holds them
+            "via": draw(st.sampled_from(["paths", "paths", "folder"])),
+            "t0": draw(st.integers(0, 5)),
         }
 
     return strat()
@@ -351,7 +533,7 @@ def check_write(case):
               "via-float" if case["via_float"] else "direct", f"files-{case['nfiles']}")
     rng = np.random.default_rng(case["pseed"])
     top = {"uint8": 256, "uint16": 65536, "float64": 2}[case["dtype"]]
-    paths, wants = [], []
+    paths, wants, ints = [], [], []
     for k in range(case["nfiles"]):
         if case["dtype"] == "float64":
             arr = rng.random((h, w, 3))
@@ -365,7 +547,7 @@ def check_write(case):
         as_float = img.img_as(float)
         src = as_float if case["via_float"] else img
         before = src.img.copy()
-        p = _path(f"w{k}{case['suffix']}", case["path"])
+        p = _path(os.path.join("written", f"w{k}{case['suffix']}"), case["path"])
         kw = {} if case["compression"] is None else {"compression": case["compression"]}
         try:
             src.write(p, **kw)
@@ -374,33 +556,65 @@ def check_write(case):
                 return Outcome(False, None, labels + ("rejected",), status="rejected")
             raise
         if case["dtype"] == "float64":
-            raise Violation("write-float-accepted", "float image written without NotImplementedError", t)
+            # nothing is promised about images that were floats from the start: if a version writes
+            # them there is no claim about the (necessarily quantised) colours
+            return Outcome(False, None, labels + ("float-accepted",), status="skipped")
         if not np.array_equal(src.img, before) or src.color_space != case["cspace"]:
             raise Violation("write-mutates", "write() changed the image", t)
         rgb = as_float.img if case["cspace"] == "RGB" else as_float.img[..., ::-1]
         paths.append(p)
         wants.append(rgb)
+        ints.append(arr if case["cspace"] == "RGB" else arr[..., ::-1])
+    via = case.get("via", "paths") if case["nfiles"] > 1 else "paths"
+    as_list = case["nfiles"] > 1  # a folder is read as the sorted list of its files
     rkw = {}
     if case["kw"] == "geometry":
         rkw = dict(dimensions=[h * 0.5, w * 2.0], name="read back")
-    if case["nfiles"] == 1:
+    elif case["kw"] == "time":
+        # documented keywords of imread_from_optical: user-specified physical time(s) and, for a
+        # single file, a custom date that replaces the one of the file
+        t0 = case.get("t0", 0)
+        if as_list:
+            rkw = dict(time=[10.0 * t0 + 2.5 * i for i in range(case["nfiles"])])
+        else:
+            rkw = dict(time=10.0 * t0, date=gens.BASE_DATE + _dt.timedelta(seconds=60 * t0))
+    given = copy.deepcopy(rkw)
+    if via == "folder":
+        folder = _path("written", case["path"])
+        back = darsia.imread(folder, **rkw)
+        want = np.stack(wants, axis=2)
+    elif case["nfiles"] == 1:
         back = darsia.imread(paths[0], **rkw)
         want = wants[0]
     else:
         back = darsia.imread(list(paths), **rkw)
         want = np.stack(wants, axis=2)
+    t["via"] = via
+    labels += (f"via-{via}", f"readkw-{case['kw']}")
     if not isinstance(back, darsia.OpticalImage):
         raise Violation("write-kind", f"imread returned {type(back).__name__}", t)
-    if back.series != (case["nfiles"] > 1) or (back.series and back.time_num != case["nfiles"]):
-        raise Violation("write-series", f"series={back.series} time_num={back.time_num}", t)
+    if back.series != as_list or (back.series and back.time_num != case["nfiles"]):
+        raise Violation("write-series", f"series={back.series} time_num={back.time_num} reading "
+                        f"{case['nfiles']} file(s) via {via}", t)
     d = C._same_array(back.img, want)
     if d:
         if C._same_array(back.img, want[..., ::-1]) == "":
             raise Violation("write-channel-order", "colours come back with R and B swapped", t)
         raise Violation("write-colours", f"colours differ after write -> imread: {d}", t)
+    # the same colours, independently of Image.img_as (which both sides above went through): the
+    # float image in [0, 1] is the integer original divided by the largest value of its type
+    whole = np.stack(ints, axis=2) if as_list else ints[0]
+    if back.img.dtype.kind != "f" or back.img.shape != whole.shape or \
+            not np.array_equal(np.rint(back.img.astype(np.float64) * (top - 1)), whole.astype(np.float64)):
+        raise Violation("write-colours-integer", f"read image (dtype {back.img.dtype}) times {top - 1} is not "
+                        "the integer image that was written", t)
+    # ... to double precision (conversion = one multiplication by the reciprocal: <= 2 roundings)
+    err = float(np.max(np.abs(back.img.astype(np.float64) - whole.astype(np.float64) / (top - 1)))) if whole.size else 0.0
+    if err > 4 * np.finfo(np.float64).eps:
+        raise Violation("write-colours-precision", f"read colours differ from integer / {top - 1} by {err:.3g}", t)
     if back.color_space != "RGB":
         raise Violation("write-colour-space", f"read image claims colour space {back.color_space}", t)
-    for k, v in rkw.items():
+    for k, v in given.items():
         got = getattr(back, k)
         if (list(got) if k == "dimensions" else got) != v:
             raise Violation("write-kwargs", f"imread keyword {k}={v!r} -> {got!r}", t)
@@ -419,21 +633,49 @@ RELOAD_KINDS = ["type", "type", "type", "curvature", "curvature", "curvature", "
 RESIZE_FACTORS = [1.0, 1.0, 0.5, 0.5, 2.0, 0.25]
 
 
+def _pick(mix, salt, options):
+    """Choice derived from an integer drawn at the start of the case: Hypothesis' generation phase
+    re-uses spans of earlier examples, which makes sampled_from draws deep inside a long case clump
+    within one run (measured: 0-2 of 600 cases with a float64 target or a roi given as slices)."""
+    return options[zlib.crc32(f"{mix}:{salt}".encode()) % len(options)]
+
+
+TYPE_TARGETS = sorted(C.NPT)
+DRIFT_ROIS = ["none", "none", "slices", "slices", "points", "points"]
+
+
 def gen_corr(tier):
     @st.composite
     def strat(draw):
+        mix = draw(st.integers(0, 2**30))
         kind = draw(st.sampled_from(RELOAD_KINDS))
         spec = draw(C._spec(kind, "any"))
+        if kind == "drift_on" and spec["dtype"] == "bool":
+            spec["dtype"] = "float32"  # cv2 refuses bool arrays: nothing to reload (c10 covers the refusal)
         cp = draw(C._corr(kind, spec))
+        # every drawn value enters: distinct cases get (nearly) independent derived choices
+        mix = zlib.crc32(json.dumps([mix, spec, cp], sort_keys=True).encode())
+        if kind == "type":
+            cp["to"] = _pick(mix, "to", TYPE_TARGETS)
+        if kind == "drift_on":
+            h, w = spec["shape"]
+            cp["roi"] = _pick(mix, "roi", DRIFT_ROIS)
+            if cp["roi"] != "none":
+                six = list(range(7))
+                cp["r"] = [_pick(mix, "r0", six), h - _pick(mix, "r1", six)]
+                cp["c"] = [_pick(mix, "c0", six), w - _pick(mix, "c1", six)]
+                cp["padding"] = _pick(mix, "pad", [0.0, 0.02, 0.02])
+            # constructor form of the baseline: array or darsia.Image (both documented)
+            cp["base_as"] = _pick(mix, "base", ["array", "array", "Image", "OpticalImage"])
         if kind == "curvature":
             # the interpolation order is a constructor keyword of its own class of cases
-            cp["order"] = draw(st.sampled_from([1, 1, 1, 0, 0, 3]))
+            cp["order"] = _pick(mix, "order", [1, 1, 1, 0, 0, 3])
             if not cp["config"]:
                 cp["config"] = {"bulge": {"horizontal_bulge": 5e-3, "horizontal_center_offset": 0,
                                           "vertical_bulge": 0.0, "vertical_center_offset": 1}}
             # constructor keyword resize_factor: the config describes the full-size image, the
             # correction is set up for images resized by that factor (dyadic factors: exact scaling)
-            cp["resize"] = draw(st.sampled_from(RESIZE_FACTORS))
+            cp["resize"] = _pick(mix, "resize", RESIZE_FACTORS)
             if cp["resize"] != 1.0 and "crop" in cp["config"]:
                 # corner points of the full-size image, so that the adapted ones lie in the input
                 cp["config"]["crop"]["pts_src"] = [[c / cp["resize"] for c in pt]
@@ -454,6 +696,21 @@ def _build_corr(cp, spec):
         return darsia.CurvatureCorrection(config=copy.deepcopy(cp["config"]),
                                           interpolation_order=cp.get("order", 1),
                                           resize_factor=cp["resize"])
+    if cp["kind"] == "drift_on" and cp.get("base_as", "array") != "array":
+        ref = C.build_corr(cp, spec)  # c10's construction from an array: source of base and config
+        cfg = {}
+        if cp["roi"] == "slices":
+            cfg["roi"] = (slice(*cp["r"]), slice(*cp["c"]))
+        elif cp["roi"] == "points":
+            cfg["roi"] = [[cp["r"][0], cp["c"][0]], [cp["r"][1], cp["c"][1]]]
+            cfg["padding"] = cp["padding"]
+        h, w = spec["shape"]
+        kw = dict(dimensions=[float(h), float(w)], scalar=False)
+        if cp["base_as"] == "OpticalImage":
+            base = darsia.OpticalImage(ref.base.copy(), color_space="RGB", dimensions=[float(h), float(w)])
+        else:
+            base = darsia.Image(ref.base.copy(), **kw)
+        return darsia.DriftCorrection(base, cfg)
     return C.build_corr(cp, spec)
 
 
@@ -502,15 +759,19 @@ def check_corr(case):
     if _all_dtypes(kind):
         labels += ("inputs-all-dtypes",)
     if kind == "drift_on":
-        labels += (f"roi-{cp['roi']}",)
+        labels += (f"roi-{cp['roi']}", f"base-{cp.get('base_as', 'array')}")
     bool_possible = spec["dtype"] == "bool"
     n_inputs = _n_inputs(cp)
     try:
         with C._guard([kind], bool_possible):
             orig = _build_corr(cp, spec)
+            # a twin with the same construction and the same history that is never saved: saving is
+            # an observation, the saved object has to keep behaving like the one that was not saved
+            twin = _build_corr(cp, spec)
             if case["used_before_save"]:
                 s0, a0 = _variant(case, 5)
                 C._apply(orig, C._mk_input(s0, a0), False)
+                C._apply(twin, C._mk_input(s0, a0), False)
             path = _path(f"{kind}.npz", "Path")
             orig.save(path)
             loaded = darsia.read_correction(path)
@@ -523,6 +784,15 @@ def check_corr(case):
             for i in range(n_inputs):
                 si, ai = _variant(case, i)
                 want = C._apply(orig, C._mk_input(si, ai), case["overwrite"])
+                if i == 0 or kind not in ("color", "drift_on"):
+                    ref = C._apply(twin, C._mk_input(si, ai), case["overwrite"])
+                    d = "" if type(ref) is type(want) else f"{type(ref).__name__} vs {type(want).__name__}"
+                    d = d or C._same_array(C._arr(want), C._arr(ref))
+                    if not d and not isinstance(ref, np.ndarray):
+                        d = C._meta_diff(C._norm_meta(want.metadata()), C._norm_meta(ref.metadata()))
+                    if d:
+                        raise Violation(f"save-changes-correction:{kind}", f"input {i} ({si['dtype']}): the "
+                                        f"correction after save() vs an identical one never saved: {d}", t)
                 got = C._apply(loaded, C._mk_input(si, ai), case["overwrite"])
                 if type(got) is not type(want):
                     raise Violation(f"reload-kind:{kind}", f"{type(want).__name__} vs {type(got).__name__}", t)
@@ -570,12 +840,21 @@ def check_corr(case):
 
 _RULE = ("npz: Hypothesis draws images over the full metadata space (space_dim 1-3, scalar / vector, "
          "single / series, 5 dtypes incl. NaN/inf/-0.0 payloads, date / time / both / neither, custom "
-         "reference date, names, origins, Image / ScalarImage / OpticalImage); bytes: PNG / TIFF, 8 / 16 "
-         "bit, grey / (H,W,1) / RGB / RGBA; write: uint8 / uint16 OpticalImages in RGB / BGR, png / tif, "
-         "single files and lists; corrections: type, curvature, drift (active / inactive), illumination, "
-         "colour with random configurations (curvature: interpolation order and resize_factor keywords, "
-         "saved before / after first use), >= 3 inputs each (type: inputs of all 5 dtypes); non-trivial = series or 3-D or dated "
-         "image / 16 bit or colour / 16 bit, BGR or list / non-neutral configuration")
+         "reference date, names, origins, Image / ScalarImage / OpticalImage), saved fresh from the "
+         "constructor or after 1-3 public operations (astype, copy, time_slice, time_interval, subregion, "
+         "append, set_time, update / reset of the reference time, update_metadata, reset_origin, array "
+         "replaced by a Fortran-ordered / strided one), the saved state then being read attribute by "
+         "attribute; bytes: PNG / TIFF, 8 / 16 bit, grey / (H,W,1) / RGB / RGBA, encoded by cv2 or by an "
+         "independent encoder (Pillow, tifffile) from the RGB array, with and without the transformations "
+         "keyword; write: uint8 / uint16 OpticalImages in RGB / BGR, png / tif, read back from a path, a "
+         "list of paths or the folder, with geometry or time / date keywords, compared with img_as(float) "
+         "of the original and with integer / max of the integer array; corrections: type (targets spread "
+         "evenly), curvature, drift (active with roi none / slices / points and baseline as array / Image / "
+         "OpticalImage, inactive), illumination, colour with random configurations (curvature: "
+         "interpolation order and resize_factor keywords, saved before / after first use), >= 3 inputs "
+         "each (type, curvature, inactive drift: inputs of all 5 dtypes), reloaded vs saved original and "
+         "saved original vs an identical twin that is never saved; non-trivial = series or 3-D or dated or "
+         "derived image / 16 bit or colour / 16 bit, BGR or list / non-neutral configuration")
 
 _SH = {"quick": 4, "thorough": 16}
 
@@ -587,7 +866,12 @@ PROP = Prop(
         "imread_from_npz builds a plain darsia.Image: class identity and color_space are not demanded, "
         "all generic metadata entries, attributes and the coordinate system are",
         "ImageMagick identify is absent: dates of written optical images are not compared",
-        "4-channel byte strings and float OpticalImage.write raise NotImplementedError -> rejected",
+        "4-channel byte strings and float OpticalImage.write raise NotImplementedError -> rejected; if a "
+        "version accepts them nothing is claimed (skipped)",
+        "reading a folder: only folders with >= 2 image files (a list of files is documented to give a "
+        "space-time image)",
+        "the twin of a correction gets the same construction and the same history; for the colour "
+        "correction and the active drift correction it is compared on the first input only (cost)",
         "k-means inside the colour correction: the instance's correct_array is wrapped to call "
         "cv2.setRNGSeed(0) first (original and reloaded object alike)",
     ],
@@ -597,6 +881,6 @@ PROP = Prop(
         Sub("optical_write_read", _wrap(check_write), gen=gen_write, n={"quick": 1600, "thorough": 80000},
             shards=_SH),
         Sub("correction_reload", _wrap(check_corr), gen=gen_corr, n={"quick": 600, "thorough": 30000},
-            shards=_SH),
+            shards={"quick": 6, "thorough": 16}),
     ],
 )
